@@ -98,6 +98,33 @@ def check_add_quantum_error(idx: Index, rep: Report):
         rep.decide(res == "ok" and got == want, rule, f, f.node, text=f"stored: {label}",
                    what="a well-formed specification is stored, in order, under its gate name (both kinds may sit on one gate)",
                    reason=f"{label}: result {res}, model {got}")
+    # the set of noisy gates follows every later addition (no stale memo)
+    from ..consteval import FuncVal
+    from ..rules import circuitsem as cs
+    try:
+        fo = cs.make_folder(idx, NOISE)
+        fo.env["SUPPORTED_NOISE_MODELS"] = supported
+        cv = fo.resolver("NoiseModel")
+        nm = fo.instantiate(cv, [], {})
+
+        def gates_now():
+            return set(fo.call_funcval(FuncVal(cv.properties["noisy_gates"], bound_self=nm, home=cv.home), [], {}))
+
+        def add(g, k, p):
+            fo.call_funcval(FuncVal(cv.methods["add_quantum_error"], bound_self=nm, home=cv.home), [g, k, p], {})
+        seq = [gates_now()]
+        add("X", "pauli", [0.1, 0.0, 0.0])
+        seq.append(gates_now())
+        add("CNOT", "depol", 0.2)
+        seq.append(gates_now())
+        add("X", "depol", 0.1)
+        seq.append(gates_now())
+        ok = seq == [set(), {"X"}, {"X", "CNOT"}, {"X", "CNOT"}]
+        rep.decide(ok, rule, f, f.node, text="noisy_gates after each of three additions: {}, {X}, {X, CNOT}, {X, CNOT}",
+                   what="the set of noisy gates always equals the gate names that carry an error, also when it was read before a later addition",
+                   reason=f"noisy_gates read {seq}")
+    except Undecidable as u:
+        raise AnalysisError(f"NoiseModel not foldable: {u}")
     ng = idx.function(f"{NOISE}::NoiseModel.noisy_gates")
     ok = any(isinstance(n, ast.Return) and "self._quantum_errors" in norm(n.value) for n in own_nodes(ng.node))
     rep.decide(ok, rule, ng, ng.node, text="noisy_gates = keys of the stored errors", what="the set of noisy gates is the set of gate names that carry an error",
@@ -175,11 +202,14 @@ def check_cirq_channel_block(idx: Index, rep: Report):
         return
     rep.ok(rule, f, blk, text="channel block after the gate dispatch, inside the gate loop", what="noise channels are inserted right after each noisy gate, in gate order")
     t = norm(blk.test)
-    keyed = [f"{d.var}.name in noise_model.noisy_gates"] + ([f"{d.subject} in noise_model.noisy_gates"] if d.subject else [])
+    # the key is the name the user gave the gate (gate.name), not the translator's internal dispatch alias: a multi-controlled CNOT is
+    # dispatched as CX but still carries the channels registered for CNOT
+    keyed = [f"{d.var}.name in noise_model.noisy_gates"]
     rep.decide(any(k in t for k in keyed) and t.startswith("noise_model and"), rule, f, blk, text=f"guard: {t}",
-               what="channels are applied iff a model is given and the gate's name carries an error", reason=f"guard is {t}")
+               what="channels are applied iff a model is given and the gate's own name (as the user wrote it) carries an error",
+               reason=f"guard is `{t}`: it does not test the gate's own name" + (f" but the dispatch alias {d.subject}, which differs for re-dispatched multi-controlled gates" if d.subject in t else ""))
     loops = [n for n in blk.body if isinstance(n, ast.For)]
-    ok = len(loops) == 1 and norm(loops[0].iter) in (f"noise_model._quantum_errors[{d.var}.name]", f"noise_model._quantum_errors[{d.subject}]") and \
+    ok = len(loops) == 1 and norm(loops[0].iter) == f"noise_model._quantum_errors[{d.var}.name]" and \
         not any(isinstance(x, (ast.Break, ast.Continue)) for x in ast.walk(loops[0]))
     rep.decide(ok, rule, f, loops[0] if loops else blk, text="for nt, np in noise_model._quantum_errors[name]",
                what="every error registered for the gate's name is applied (both kinds when both are set)",
